@@ -254,7 +254,7 @@ class NewTypeAnalyzer:
         else:
             previous_sym = info.names["__init__"].node
             assert isinstance(previous_sym, FuncDef)
-            updated = old_type != previous_sym.arguments[1].variable.type
+            updated = old_type != previous_sym.arguments[1].type_annotation
         sym = SymbolTableNode(MDEF, init_func)
         sym.plugin_generated = True
         info.names["__init__"] = sym
